@@ -5,15 +5,13 @@
  "bound": "generated test modules through Example.run_inline: C01 value trees depth<=2 (quick)/3 (thorough), width<=3, 6 operations x 4 placements + multi-value snapshots, flags=create; C02 (odd old text, new value) pairs depth<=2/3 incl. two-snapshot bodies, flags=create,fix; oracle = rewritten module compiles and re-runs green with snapshot := identity",
  "input": {
   "prop": "C02",
-  "old": "' pad '",
-  "new": "\"it's\"",
+  "old": "{\n        \"b\": [None,],  # c0\n        (1, 2,): NT(a=+1, b=None),\n    }",
+  "new": "{(1, 2): NT(a=1, b=None), 'b': [None], 'tail': 0}",
   "op": "eq",
-  "shape": "create_then_fix",
-  "placement": "assert",
-  "old2": "[ 1 ]",
-  "new2": "[1, 1]"
+  "shape": "single",
+  "placement": "assert"
  },
- "detail": "a test raised during the create,fix run: RuntimeError:\ngenerator raised StopIteration\nsource:\ndef test_a():\n    v1 = \"it's\"\n    v2 = [1, 1]\n    assert v1 == snapshot()\n    assert v2 == snapshot([ 1 ])\n\nrewritten:\ndef test_a():\n    v1 = \"it's\"\n    v2 = [1, 1]\n    assert v1 == snapshot(\"it's\")\n    assert v2 == snapshot([ 1 ])\n"
+ "detail": "a test raised during the create,fix run: TypeError:\nNT.__new__() missing 1 required positional argument: 'b'\nsource:\ndef test_a():\n    v = {(1, 2): NT(a=1, b=None), 'b': [None], 'tail': 0}\n    assert v == snapshot({\n        \"b\": [None,],  # c0\n        (1, 2,): NT(a=+1, b=None),\n    })\n\nrewritten:\ndef test_a():\n    v = {(1, 2): NT(a=1, b=None), 'b': [None], 'tail': 0}\n    assert v == snapshot({\n        \"b\": [None,],  # c0\n        (1, 2,): NT(a=+1, b=None),\n    })\n"
 }
 """
 
@@ -65,7 +63,7 @@ def rerun_identity(src):
     finally:
         inline_snapshot.snapshot = real
 
-SRC = 'from inline_snapshot import snapshot\n\n\n# ---- case ----\ndef test_a():\n    v1 = "it\'s"\n    v2 = [1, 1]\n    assert v1 == snapshot()\n    assert v2 == snapshot([ 1 ])\n'
+SRC = 'from inline_snapshot import snapshot\nfrom collections import namedtuple\n\n\nNT = namedtuple("NT", "a b")\n\n\n# ---- case ----\ndef test_a():\n    v = {(1, 2): NT(a=1, b=None), \'b\': [None], \'tail\': 0}\n    assert v == snapshot({\n        "b": [None,],  # c0\n        (1, 2,): NT(a=+1, b=None),\n    })\n'
 FLAGS = 'create,fix'
 after, raised = run_inline({'test_something.py': SRC}, FLAGS, cwd_files={})
 new = after['test_something.py']
